@@ -656,9 +656,13 @@ fn gen_info(rng: &mut Rng) -> String {
 }
 
 pub fn generate(thorough: bool, rng: &mut Rng, ops: &mut Vec<String>, stats: &mut Stats) {
-    let (n_plan, n_info, n_hist) = if thorough { (12_000, 4000, 1500) } else { (1200, 400, 120) };
+    let (n_plan, n_info, n_hist, n_big) = if thorough { (12_000, 4000, 1700, 12) } else { (1200, 400, 140, 3) };
     // the real histories come first: `check` examines the first disagreements it meets, and a failing history is a
     // failing input of the property (a differing plan observation is only a model/implementation disagreement)
+    for i in 0..n_big {
+        ops.push(hist::gen_hist_big(rng, stats, i % 3 != 1));
+        stats.hit("op.hist");
+    }
     for _ in 0..n_hist {
         ops.push(hist::gen_hist(rng, stats, thorough));
         stats.hit("op.hist");
